@@ -19,7 +19,7 @@ ID = "C12"
 LEVEL = "model_checking"
 MIN_OUTCOMES = 3
 MANIFEST = {
-    'text': 'All strings over the stated 13/15-symbol alphabet (quotes, backslash, $, backtick, %, newline, non-ASCII, placeholders, OLD/NEW) up to length 3/4 in every slot (commit and tag message via TOML config, via setup.cfg and via CLI, file name, version-pattern literal) are run through the real `update` with a fake git/hg at the subprocess seam; the recorded argv vectors must equal those of the benign baseline run with only the one argument replaced by the expected text (hg: the --logfile content). Every string up to length 2 is additionally committed and tagged with a real git and read back from the objects.',
+    'text': 'All strings over the stated 15/17-symbol alphabet (quotes, backslash, $, backtick, %, newline, non-ASCII incl. a decomposed accent and U+2126 that change under Unicode normalisation, placeholders, OLD/NEW) up to length 3/4 in every slot (commit and tag message via TOML config, via setup.cfg and via CLI, file name, version-pattern literal) are run through the real `update` with a fake git/hg at the subprocess seam; the recorded argv vectors must equal those of the benign baseline run with only the one argument replaced by the expected text (hg: the --logfile content). Every string up to length 2 is additionally committed and tagged with a real git and read back from the objects.',
     'note': 'templates with braces other than the documented placeholders are outside the statement; how real git/hg interpret a leading dash is not covered (argv-level property)',
     'technique': 'exhaustive enumeration of a bounded input alphabet on the real code, differential trace oracle at the subprocess seam + real git',
 }
